@@ -491,7 +491,7 @@ def hoist_lambda(R, t, hoisted_name, captures, ordinal=0, ret_default="void"):
     function.  captures: list of (name, ctype, by_ref) appended BEFORE the lambda's own
     parameters.  Handles `auto NAME = [&](..)->T{..};` (calls NAME(args) are rewritten) and
     immediately invoked lambdas `[&](..)->T{..}(args)`.  Returns (function_text, new_t)."""
-    ms = list(re.finditer(r'\[[&=]\]\s*\(([^)]*)\)\s*(?:->\s*([\w:]+)\s*)?(?=\{)', t))
+    ms = list(re.finditer(r'\[[&=]\]\s*\(([^)]*)\)\s*(?:->\s*([\w:<>]+)\s*)?(?=\{)', t))
     if ordinal >= len(ms):
         raise ExtractionBreak("R7: lambda #%d not found (have %d)" % (ordinal, len(ms)))
     m = ms[ordinal]
